@@ -88,6 +88,8 @@ struct Env {
     ready_polls: RefCell<BTreeMap<usize, u8>>,
     ready_errs_reported: RefCell<BTreeMap<usize, bool>>,
     calls: RefCell<BTreeMap<usize, u32>>,
+    /// leaves whose response also carries the ordinal of the call (k-th request they received)
+    order_sensitive: RefCell<std::collections::BTreeSet<usize>>,
     news: RefCell<BTreeMap<usize, u32>>,
     /// owners of the values behind the `&'static` / `&'static mut` services of `Ref`/`RefMut`
     /// nodes; freed by `Env::free` after the service that borrows them has been dropped
@@ -105,6 +107,7 @@ impl Env {
             ready_polls: RefCell::new(BTreeMap::new()),
             ready_errs_reported: RefCell::new(BTreeMap::new()),
             calls: RefCell::new(BTreeMap::new()),
+            order_sensitive: RefCell::new(Default::default()),
             news: RefCell::new(BTreeMap::new()),
             graveyard: RefCell::new(vec![]),
         })
@@ -207,6 +210,14 @@ fn leaf_value(leaf: usize, req: u64) -> u64 {
     tagv(req, leaf as u64 + 1)
 }
 
+/// Response of an order-sensitive leaf to the `inst`-th request it was handed.
+fn leaf_value_inst(leaf: usize, req: u64, inst: Option<u32>) -> u64 {
+    match inst {
+        Some(i) => tagv(leaf_value(leaf, req), 40 + i as u64),
+        None => leaf_value(leaf, req),
+    }
+}
+
 impl Future for LeafFut {
     type Output = Result<u64, u64>;
     fn poll(mut self: Pin<&mut Self>, cx: &mut Context<'_>) -> Poll<Self::Output> {
@@ -225,7 +236,8 @@ impl Future for LeafFut {
         }
         self.env.unpark(key);
         self.done = true;
-        let v = leaf_value(self.leaf, self.req);
+        let sensitive = self.env.order_sensitive.borrow().contains(&self.leaf);
+        let v = leaf_value_inst(self.leaf, self.req, sensitive.then_some(self.inst));
         if s.call_err {
             self.env.ev(Ev::Poll { leaf: self.leaf, round, res: R::Err(v) });
             Poll::Ready(Err(v))
@@ -318,6 +330,14 @@ impl T {
                 b.leaves(out);
             }
             T::Map(t, _) | T::MapErr(t, _) | T::ApplyFn(t, _) | T::Boxed(t) | T::RcSvc(t) | T::Rc(t) | T::RefCell(t) | T::Ref(t) | T::RefMut(t) | T::BoxS(t) => t.leaves(out),
+        }
+    }
+    /// the leaf that receives the request when the combined service is called
+    fn first_stage_leaf(&self) -> usize {
+        match self {
+            T::Leaf(i) => *i,
+            T::AndThen(a, _) => a.first_stage_leaf(),
+            T::Map(t, _) | T::MapErr(t, _) | T::ApplyFn(t, _) | T::Boxed(t) | T::RcSvc(t) | T::Rc(t) | T::RefCell(t) | T::Ref(t) | T::RefMut(t) | T::BoxS(t) => t.first_stage_leaf(),
         }
     }
     /// readiness error of `leaf` as seen at the root (mapped by the map_err nodes on the path)
@@ -482,10 +502,16 @@ fn build(t: &T, env: &Rc<Env>) -> Svc {
 /// Result of the documented composition plus the expected sequence of leaf calls and leaf
 /// completions, in order.
 fn eval(t: &T, req: u64, scripts: &dyn Fn(usize) -> Script, trace: &mut Vec<Ev>) -> Result<u64, u64> {
+    eval_inst(t, req, scripts, &|_| None, trace)
+}
+
+/// `inst(leaf)`: for an order-sensitive leaf, the ordinal of this request among those handed to it.
+fn eval_inst(t: &T, req: u64, scripts: &dyn Fn(usize) -> Script, inst: &dyn Fn(usize) -> Option<u32>, trace: &mut Vec<Ev>) -> Result<u64, u64> {
+    let eval = |t: &T, req: u64, scripts: &dyn Fn(usize) -> Script, trace: &mut Vec<Ev>| eval_inst(t, req, scripts, inst, trace);
     match t {
         T::Leaf(i) => {
             trace.push(Ev::Call { leaf: *i, req });
-            let v = leaf_value(*i, req);
+            let v = leaf_value_inst(*i, req, inst(*i));
             let r = if scripts(*i).call_err { Err(v) } else { Ok(v) };
             trace.push(Ev::Poll { leaf: *i, round: 0, res: match r { Ok(v) => R::Ok(v), Err(v) => R::Err(v) } });
             r
@@ -642,6 +668,110 @@ fn drive_service(svc: &Svc, t: &T, env: &Rc<Env>, req: u64, check_c12: bool) -> 
     };
     drop(fut);
     Ok(Driven { result: Ok(result), ready_rounds, call_rounds })
+}
+
+/// Two requests outstanding at once. The first stage is handed a request when `call` is
+/// invoked (that is what the reference composition does), so a first-stage leaf that numbers
+/// the requests it receives sees request 1 first and request 2 second - whatever the order in
+/// which the two response futures are polled afterwards, and also if the first one is dropped
+/// without ever being polled.
+#[derive(Clone, Copy, Debug, PartialEq, Eq)]
+enum TwoOrder {
+    FirstThenSecond,
+    SecondThenFirst,
+    AlternateFromFirst,
+    AlternateFromSecond,
+    DropFirstUnpolled,
+}
+const TWO_ORDERS: [TwoOrder; 5] = [TwoOrder::FirstThenSecond, TwoOrder::SecondThenFirst, TwoOrder::AlternateFromFirst, TwoOrder::AlternateFromSecond, TwoOrder::DropFirstUnpolled];
+
+fn ready_until_ok(svc: &Svc, env: &Rc<Env>) -> Result<(), u64> {
+    for _ in 0..40 {
+        let round = env.round.get() + 1;
+        env.round.set(round);
+        let w = CountWaker::new(round as usize);
+        let waker = w.waker();
+        match svc.poll_ready(&mut Context::from_waker(&waker)) {
+            Poll::Pending => {}
+            Poll::Ready(r) => return r,
+        }
+    }
+    panic!("poll_ready never ready");
+}
+
+fn check_two_calls_inner(c: &SvcCase, order: TwoOrder, env: &Rc<Env>, svc: &Svc) -> Result<(), Bad> {
+    let first = c.tree.first_stage_leaf();
+    env.order_sensitive.borrow_mut().insert(first);
+    let (r1, r2) = (c.req, c.req + 2);
+    if ready_until_ok(svc, env).is_err() {
+        return Ok(());
+    }
+    let mut f1 = Some(svc.call(r1));
+    if ready_until_ok(svc, env).is_err() {
+        return Ok(());
+    }
+    let mut f2 = Some(svc.call(r2));
+    let mut res: [Option<Result<u64, u64>>; 2] = [None, None];
+    if order == TwoOrder::DropFirstUnpolled {
+        f1 = None;
+    }
+    let mut turn = match order {
+        TwoOrder::FirstThenSecond | TwoOrder::AlternateFromFirst => 0,
+        _ => 1,
+    };
+    for _ in 0..200 {
+        let live = [f1.is_some(), f2.is_some()];
+        if !live[0] && !live[1] {
+            break;
+        }
+        if !live[turn] {
+            turn = 1 - turn;
+        }
+        let round = env.round.get() + 1;
+        env.round.set(round);
+        let w = CountWaker::new(round as usize);
+        let waker = w.waker();
+        let mut cx = Context::from_waker(&waker);
+        let f = if turn == 0 { &mut f1 } else { &mut f2 };
+        if let Poll::Ready(r) = f.as_mut().unwrap().as_mut().poll(&mut cx) {
+            res[turn] = Some(r);
+            *f = None;
+        }
+        if matches!(order, TwoOrder::AlternateFromFirst | TwoOrder::AlternateFromSecond) {
+            turn = 1 - turn;
+        }
+    }
+    let scripts = c.scripts.clone();
+    let sf = move |i: usize| scripts.get(i).copied().unwrap_or_default();
+    for (k, req) in [(0usize, r1), (1, r2)] {
+        if k == 0 && order == TwoOrder::DropFirstUnpolled {
+            continue;
+        }
+        let want = eval_inst(&c.tree, req, &sf, &|l| (l == first).then_some(k as u32 + 1), &mut vec![]);
+        match res[k] {
+            Some(got) if got == want => {}
+            Some(got) => {
+                return Err(bad(
+                    "two-calls:response-depends-on-poll-order",
+                    format!("two calls outstanding ({r1} then {r2}), futures polled {:?}: call {} returned {:?}, the reference composition (first stage handed the request inside `call`) gives {:?}", order, k + 1, got, want),
+                ))
+            }
+            None => return Err(bad("two-calls:never-completes", format!("call {} did not complete", k + 1))),
+        }
+    }
+    Ok(())
+}
+
+fn check_two_calls(c: &SvcCase, order: TwoOrder) -> Result<(), Bad> {
+    let env = Env::new(c.scripts.clone(), vec![]);
+    let svc = build(&c.tree, &env);
+    let r = match mcutil::quiet_catch(|| check_two_calls_inner(c, order, &env, &svc)) {
+        Ok(r) => r,
+        Err(p) => Err(bad("panic", mcutil::panic_message(&*p))),
+    };
+    drop(svc);
+    env.free();
+    r
 }
 
 #[derive(Debug, Clone)]
@@ -1372,6 +1502,7 @@ struct Part {
     runs: u64,
     nontrivial: u64,
     errors: u64,
+    two_call_runs: u64,
     vios: Vec<Violation>,
     sample: Option<Value>,
 }
@@ -1415,6 +1546,17 @@ fn service_part(trees: &[T], options: &[Script], max_dev: usize, c12: bool, prop
                         // a C11 run reports composition errors, a C12 run polling-discipline errors
                         if is_c12_sig(&b.0) == c12 || b.0 == "panic" {
                             p.vio(prop, b, c.to_json());
+                        }
+                    }
+                }
+                if !c12 && req == 1 && scripts.iter().all(|s| s.ready_pend == 0 && !s.ready_err) {
+                    for order in TWO_ORDERS {
+                        p.runs += 1;
+                        p.two_call_runs += 1;
+                        if let Err(b) = check_two_calls(&c, order) {
+                            let mut j = c.to_json();
+                            j["two_calls"] = json!(format!("{:?}", order));
+                            p.vio(prop, b, j);
                         }
                     }
                 }
@@ -1517,7 +1659,13 @@ fn run(args: &Args, c12: bool) -> i32 {
         let res = if r["kind"] == "service" {
             let c = SvcCase::from_json(&r);
             println!("service case {:?}", c);
-            check_service_case(&c, c12, true).map(|_| ())
+            match r["two_calls"].as_str() {
+                Some(o) => {
+                    let order = TWO_ORDERS.into_iter().find(|x| format!("{:?}", x) == o).expect("order");
+                    check_two_calls(&c, order)
+                }
+                None => check_service_case(&c, c12, true).map(|_| ()),
+            }
         } else {
             let c = FacCase::from_json(&r);
             println!("factory case {:?}", c);
@@ -1585,7 +1733,9 @@ fn run(args: &Args, c12: bool) -> i32 {
     let mut nontrivial = 0;
     let mut errors = 0;
     let mut rounds = 0;
+    let mut two_call_runs = 0;
     for p in parts {
+        two_call_runs += p.two_call_runs;
         rounds += p.rounds;
         runs += p.runs;
         nontrivial += p.nontrivial;
@@ -1598,6 +1748,9 @@ fn run(args: &Args, c12: bool) -> i32 {
         }
     }
     rep.set("runs_taking_an_error_path", errors);
+    if !c12 {
+        rep.set("runs_with_two_calls_outstanding", two_call_runs);
+    }
     rep.set("states", rounds + runs);
     rep.set("transitions", rounds);
     rep.set("traces_validated_against_impl", runs);
